@@ -12,7 +12,7 @@ for id in $ids; do
     if ! git -C /repo apply --check "$PWD/$d/patch.diff" 2>/dev/null; then echo "$id: patch does not apply"; continue; fi
     git -C /repo apply "$PWD/$d/patch.diff"
     for p in $props; do
-        out=$(./check "$p" --tier quick 2>&1); rc=$?
+        out=$(VERIF_EVIDENCE_DIR=/tmp/verif_seeded_evidence ./check "$p" --tier quick 2>&1); rc=$?
         echo "$id -> $p rc=$rc :: $(echo "$out" | grep -E "^$p quick" | tail -1)"
         echo "$out" | grep -E "VIOLATION|key=" | head -3
     done
